@@ -36,6 +36,9 @@ def run_intersect(pairs, batching, model, outer2=0, tuplew=0):
             acc += s
             bounds.append(acc)
         done = 0
+        if 0 in bounds:
+            # an empty leading batch: the traces are handed over once before the first fiber has been intersected
+            isect.addTraces(Metrics.consumeTrace("K", "intersect_0"), Metrics.consumeTrace("K", "intersect_1"))
         for j, _ in c_j:
             a_k, b_k = fibers[j]
             for _ in (mkfiber([0], "J") if outer2 else [(0, 1)]):
@@ -64,6 +67,8 @@ def run_lf(pairs, batching):
             acc += s
             bounds.append(acc)
         done = 0
+        if 0 in bounds:
+            isect.addTraces(Metrics.consumeTrace("K", "intersect_0"))
         for j, _ in c_j:
             a_k, b_k = fibers[j]
             for _ in Fiber.intersection(a_k, b_k, style="leader-follower"):
